@@ -50,7 +50,7 @@ def main():
       "engines":[{"name":"simcheck","path":"/verif/sim","serves_properties":sorted(CLAIMED.keys()),"kind_free_text":"single-process deterministic simulator (Rust): real connection objects behind dyn Endpoint, simulated transport/clock/application/peer/persistence, PRNG-driven scheduler, ddmin shrinker, replay files"}],
       "checks":checks,
       "not_applicable":na,
-      "notes":"VERIF_SEED selects the master seed (default 1). Known findings: KNOWN_FINDINGS.txt. Minimised violations of repaired defects: findings/*.json (replay with ./check.sh --replay).",
+      "notes":"VERIF_SEED selects the master seed (default 1). Known findings: KNOWN_FINDINGS.txt. Minimised violations of repaired defects: findings/*.json (replay with ./check.sh --replay). corpus/<id>/*.json: recorded schedules that every check re-plays after its seeded batch (DESIGN 7). seeded/: independent changes used to test the checks (DESIGN 14).",
     }
     json.dump(m,open("/verif/MANIFEST.json","w"),indent=1)
     print("claimed",len(checks),"na",len(na))
